@@ -470,22 +470,22 @@ def section_instances(ck, rng, record):
             oB = observables(B)
             freshB = observables(G.make_reparam(tB, dB, torch.tensor(xB, dtype=DT), kind))
             probs = same_as_reference(freshB, oB, 0.0)
-            A._internal_heights.fire_parameter_changed()
+            G.heights_param(A).fire_parameter_changed()
             probs += ["first instance changed after a second one was built and evaluated: " + w
                       for w in same_as_reference(oA, observables(A), 0.0)]
             # deepcopy, then update the copy only
             C = copy.deepcopy(A)
-            C._internal_heights.tensor = torch.tensor(xA2, dtype=DT)
+            G.heights_param(C).tensor = torch.tensor(xA2, dtype=DT)
             wantC = observables(G.make_reparam(tA, dA, torch.tensor(xA2, dtype=DT), kind))
             probs += ["deepcopy updated to new parameters: " + w for w in same_as_reference(wantC, observables(C), 0.0)]
-            A._internal_heights.fire_parameter_changed()
+            G.heights_param(A).fire_parameter_changed()
             probs += ["original changed by an update of its deepcopy: " + w for w in same_as_reference(oA, observables(A), 0.0)]
             # move, then update, then read
             mv = rng.choice(["cpu", "to"])
             (A.cpu() if mv == "cpu" else A.to(torch.float64))
             with torch.no_grad():
-                A._internal_heights.tensor.copy_(torch.tensor(xA2, dtype=DT))
-            A._internal_heights.fire_parameter_changed()
+                G.heights_param(A).tensor.copy_(torch.tensor(xA2, dtype=DT))
+            G.heights_param(A).fire_parameter_changed()
             probs += [f"after {mv}() and an in-place update: " + w for w in same_as_reference(wantC, observables(A), 0.0)]
             probs += [w for _c, w in property_on(A, dA)]
         except Exception as e:
@@ -580,7 +580,7 @@ def section_failures(ck, rng, record):
         observed["inverse of a vector of the wrong length"] = "returns"
     except Exception as e:
         observed["inverse of a vector of the wrong length"] = f"raises {type(e).__name__}"
-    m._internal_heights.fire_parameter_changed()
+    G.heights_param(m).fire_parameter_changed()
     for w in same_as_reference(before, observables(m), 0.0)[:1]:
         record("failure:state-after-failed-inverse", "a failed inverse changed the model: " + w, {"type": "failure", "name": "inverse"}, (1, 1, 0))
     ck.extra["failure_paths"] = observed
@@ -711,7 +711,7 @@ def run_nonclock(case, kbl_newick):
             elif any(abs(H[i] - Hexp[i]) > 1e-9 * S for i in range(n, 2 * n - 1)):
                 probs.append(f"internal heights {H[n:]} but max over children of (child + max(1e-6, branch)) gives {Hexp[n:]}")
             if hasattr(m, "transform"):
-                x = m._internal_heights.tensor.detach().tolist()
+                x = G.heights_param(m).tensor.detach().tolist()
                 if name.endswith("[ratios]"):
                     if any(not (-1e-12 <= r <= 1 + 1e-12) for r in x[:-1]) or not (x[-1] >= max(leaf) - 1e-12):
                         probs.append(f"parameters outside the domain: ratios {x[:-1]}, root height {x[-1]} (oldest tip {max(leaf)})")
